@@ -1,5 +1,5 @@
 CFG = {
-    "modules": ["Parsley.Props.C04"],
+    "modules": ["Parsley.Props.C04", "Parsley.Props.C04Ctx"],
     "theorems": [
         "Parsley.C04.prev_cycle_or_oob_rejected", "Parsley.C04.root_from_newest", "Parsley.C04.merge_is_newest_wins_partial",
         "Parsley.C04.infoOf_inFile",
@@ -9,6 +9,12 @@ CFG = {
         "Parsley.LoaderChain.merge_first_wins", "Parsley.LoaderChain.addEnts_mem", "Parsley.LoaderChain.addEnts_keys",
         "Parsley.LoaderChain.stable_gen_first_per_number",
         "Parsley.C04.free_with_bumped_generation_witness", "Parsley.C04.objstm_member_redefined_witness",
+        # follow-up C03b: the statement about the FINAL CONTEXT
+        "Parsley.C04.newest_wins_written_partial",
+        "Parsley.LoaderStage.stage_from", "Parsley.LoaderStage.newest_wins_in_context_partial",
+        "Parsley.LoaderStage.newest_wins_classic_partial", "Parsley.LoaderStage.newest_wins_classic_chain_partial",
+        "Parsley.LoaderStage.classic_chain_ctx", "Parsley.LoaderStage.chain_classic_noStm", "Parsley.LoaderStage.chain_unique",
+        "Parsley.LoaderStage.fs_chain",
     ],
     "partial": {
         "merge_is_newest_wins_partial":
@@ -16,9 +22,17 @@ CFG = {
             "freed ones are undefined. PROVED for all inputs on which get_xref_info succeeds: the entries kept are exactly the first occurrence of every "
             "(number, generation) along the /Prev chain, newest first (Chain predicate = the sections actually read); if generations are stable per "
             "number, per object NUMBER exactly the newest entry survives, a number whose newest entry is free is not loaded from any offset, and an "
-            "in-use one is loaded from its newest offset and no other. EXCLUDED (real defects, known findings with witness theorems, not proof gaps): "
-            "histories in which a number changes generation (#29) and object-stream members mentioned again later (#30). NOT composed by a theorem: "
-            "the step from the collected entries to the context (C03's load_defines_exactly_partial covers direct objects) - decided by the oracle.",
+            "in-use one is loaded from its newest offset and no other. NOW COMPOSED WITH THE LOADING STAGE (follow-up C03b, Lemmas/LoaderStage.lean, Props/C04Ctx.lean): "
+            "newest_wins_in_context_partial - the statement about the FINAL CONTEXT after parse_objects, from any context left by the walk (stage_from generalises "
+            "C03's stage theorem to a non-empty starting context, as left behind by cross-reference streams): newest entry free => the number is defined under no "
+            "generation; newest entry in use at o => (n, gen) is bound to what reads at o and no other generation of n is defined; never mentioned => undefined. "
+            "newest_wins_classic_chain_partial: for chains of classic tables the side conditions (empty context after the walk, no in-stream entry) are proved from the "
+            "chain itself (ClassicAt at every visited offset); newest_wins_written_partial: and the premise ReadsAt is discharged for objects written in any legal "
+            "spelling (C02.Spells via LoaderE2E.reads_spelled). Non-vacuity: evaluated on the two-revision file freeStable (fs_chain, fs_walk, fs_reads). "
+            "EXCLUDED (real defects, known findings with witness theorems, not proof gaps): histories in which a number changes generation (#29) and object-stream "
+            "members mentioned again later (#30; more generally any in-stream entry); also hybrid sections and objects that only load in the second pass. NOT proved: "
+            "that a history rendered by DocSpec.renderHistory satisfies the hypotheses (getXrefInfo succeeds along the rendered chain) - C03's load_defines_exactly_classic "
+            "does this for ONE revision; for several revisions the chain walk over rendered sections is decided by the oracle.",
         "(fuel)": "xrefLoop takes a fuel |file|+1; xrefLoop_fuel_stable/getXrefInfo_fuel_stable: more fuel never changes the result, getXrefInfo_panic_origin: "
             "every panic outcome originates in a component parser, never in the fuel branch; chain_length_bounded: at most |file| sections are read",
     },
